@@ -19,6 +19,8 @@ var generators = map[string]func(*Gen){
 	"C08": genC08,
 	"C11": genC11,
 	"C12": genC12,
+	"C13": genC13,
+	"C14": genC14,
 	"C19": genC19,
 }
 
